@@ -174,6 +174,18 @@ impl DetectProp for C01 {
                 }
             }
         }
+        // multi-byte sequences that decode to two characters each, inside ordinary text (Big5)
+        {
+            let mut rng3 = Rng::new(4242);
+            for k in 0..(if thorough { 6 } else { 2 }) {
+                let b = big5_two_codepoint_text(&mut rng3);
+                let mut s = Sett::default();
+                if k % 2 == 1 {
+                    s.incl = vec!["big5".into()];
+                }
+                v.push(Case { bytes: b, sett: s, tag: "directed:big5-two-codepoint-sequences".into() });
+            }
+        }
         // a stateful 7-bit encoding switched to two-byte mode right before byte 500,000
         {
             let mut rng2 = Rng::new(777);
